@@ -872,6 +872,8 @@ static void dump_chrome_header(struct uftrace_dump_ops *ops, struct uftrace_data
 	for (i = 0; i < info->nr_tid; i++) {
 		tid = info->tids[i];
 		task = find_task(&handle->sessions, tid);
+		if (task == NULL)
+			continue;
 
 		if (chrome->last_comma)
 			pr_out(",\n");
@@ -901,7 +903,7 @@ static void dump_chrome_task_rstack(struct uftrace_dump_ops *ops, struct uftrace
 	struct uftrace_record *frs = task->rstack;
 	enum uftrace_argspec_string_bits str_mode = NEEDS_JSON;
 	struct uftrace_chrome_dump *chrome = container_of(ops, typeof(*chrome), ops);
-	bool is_process = task->t->pid == task->tid;
+	bool is_process = task->t == NULL || task->t->pid == task->tid;
 	int rec_type = frs->type;
 	size_t namelen = strlen(name);
 	char *p = name_buf;
